@@ -223,8 +223,10 @@ class Reader:
 
     def const_rows(self, e):
         e = peel_refs(e)
+        while e.get("k") == "MethodCall" and e["name"] in ("iter", "into_iter", "copied", "cloned") and not e["args"]:
+            e = peel_refs(e["recv"])
         if e.get("k") == "Path" and e["res"].get("r") == "def" and e["res"].get("path") in self.crate.hir:
-            e = peel_refs(self.crate.hir[e["res"]["path"]]["body"])
+            e = peel_refs(self.crate.hir[e["res"]["path"]]["body"])  # a const or static table
         if e.get("k") != "Array":
             return None
         rows = []
@@ -266,6 +268,8 @@ class Reader:
                             sub = p["pats"][0]
                         if sub is None:
                             continue
+                        while sub.get("k") in ("Ref", "Deref"):  # `for &format in TABLE`
+                            sub = sub["pat"]
                         if sub.get("k") == "Binding":
                             if all(len(r) == 1 for r in rows):
                                 self.env[sub["id"]] = {r[0] for r in rows}
